@@ -176,7 +176,7 @@ func cmdCheck(args []string) {
 		}
 		inBase := false
 		for _, b := range baseline {
-			if b == o.Name {
+			if b == o.Name || (isSafetyKind(o.Kind) && b == o.Fn+"#safety") {
 				inBase = true
 			}
 		}
@@ -195,6 +195,9 @@ func cmdCheck(args []string) {
 	}
 	if len(baseline) > 0 && !*updateBaseline {
 		for _, b := range baseline {
+			if strings.HasSuffix(b, "#safety") {
+				continue
+			}
 			if _, ok := byName[b]; !ok {
 				if kf := isKnown(b); kf != nil {
 					continue
@@ -231,9 +234,24 @@ func cmdCheck(args []string) {
 	}
 	if *updateBaseline {
 		var names []string
+		safetyOK := map[string]bool{}
 		for _, o := range res.all {
+			if isSafetyKind(o.Kind) {
+				if _, seen := safetyOK[o.Fn]; !seen {
+					safetyOK[o.Fn] = true
+				}
+				if !o.OK() {
+					safetyOK[o.Fn] = false
+				}
+				continue
+			}
 			if o.OK() {
 				names = append(names, o.Name)
+			}
+		}
+		for fn, ok := range safetyOK {
+			if ok {
+				names = append(names, fn+"#safety")
 			}
 		}
 		sort.Strings(names)
@@ -511,4 +529,14 @@ func writeReplay(repo, id, name, reason string, o *Oblig) replayResult {
 	data, _ := json.MarshalIndent(rec, "", " ")
 	os.WriteFile(path, data, 0o644)
 	return replayResult{path: path, confirmed: confirmed}
+}
+
+// Safety obligations are generated per instruction, so their names move with harmless edits; the shipped
+// list records them per function ("<fn>#safety" = every safety obligation of fn discharged).
+func isSafetyKind(k string) bool {
+	switch k {
+	case "bounds", "nil-deref", "overflow", "div-zero", "slice-bounds", "type-assert", "panic-unreachable", "negative-shift", "makeslice-len", "nil-map-write":
+		return true
+	}
+	return false
 }
